@@ -65,5 +65,35 @@ def make_plan(prop, total, tier, rule):
         'UB or an internal error inside CNL is a failure for both C06 and C07 (classes .../ub-trap, .../abort:...)'])
 
 
+def trap_processes(ctx):
+    """trapping tag = real process death: 10 subprocess cases per compiler, hooks present but inert"""
+    import verif, os, subprocess
+    res = dict(name='trap-process', cfg='gxx', evaluations=0, distinct_nontrivial=0, labels={}, samples=[], failures=[],
+               note='real subprocesses: SIGABRT and "positive overflow"/"negative overflow" on stderr for 8 overflowing cases, normal return for 2')
+    src = os.path.join(verif.HARNESS, 'aux', 'trap_process.cpp')
+    for cfg in ('gxx', 'clang'):
+        cc = verif.CFGS[cfg][0]
+        exe = os.path.join(ctx['outdir'], 'trap_process_' + cfg)
+        r = verif.run([cc, '-std=gnu++20', '-O1', '-w', '-D' + verif.GUARD, '-I' + os.path.join(verif.REPO, 'include'), src, '-o', exe])
+        if r.returncode != 0:
+            res['failures'].append(dict(site='C06|trap-process|' + cfg, **{'class': 'does-not-compile'}, msg=r.stdout[-500:], desc='trap_process.cpp', confirmed=True))
+            continue
+        expect = ['positive overflow', 'negative overflow'] * 4 + [None, None]
+        for k, want in enumerate(expect):
+            p = subprocess.run([exe, str(k)], stdout=subprocess.PIPE, stderr=subprocess.PIPE, text=True)
+            res['evaluations'] += 1
+            res['distinct_nontrivial'] += 1 if want else 0
+            ok = (p.returncode == -6 and want in p.stderr and 'returned' not in p.stdout) if want else (p.returncode == 0 and 'returned' in p.stdout)
+            res['labels']['trap-process-' + ('dies' if want else 'returns')] = res['labels'].get('trap-process-' + ('dies' if want else 'returns'), 0) + 1
+            if not ok:
+                res['failures'].append(dict(site='C06|trap-process|%s|case%d' % (cfg, k), **{'class': 'trapping-does-not-terminate-as-specified'},
+                                            msg='expected %s, got rc=%s stderr=%r stdout=%r' % (want or 'normal return', p.returncode, p.stderr[:80], p.stdout[:40]),
+                                            desc='trap_process case %d' % k, confirmed=True))
+        res['samples'].append(dict(site='C06|trap-process|' + cfg, cfg=cfg, case='case 0: add(INT_MAX, 2) under trapping -> SIGABRT + "positive overflow"'))
+    return [res]
+
+
 def plan(tier, seed):
-    return make_plan('C06', False, tier, RULE)
+    p = make_plan('C06', False, tier, RULE)
+    p['extra'] = trap_processes
+    return p
